@@ -239,7 +239,158 @@ pub fn callback_cases(ev: &mut Ev) -> (u64, Vec<Violation>) {
     (n, viol)
 }
 
+// ---- the configuration builder as a state machine ---------------------------------------------
+// Every sequence of setter calls up to a length bound; model = last write wins per switch
+// (generate_dwarf(true) also turns code-transform preservation on, as documented).  The output
+// must be byte-identical to the output under the canonical configuration of the model state.
+
+const SETTERS: [&str; 8] = ["names", "producers", "dwarf", "preserve_ct", "stable", "synthetic", "strict", "on_parse"];
+
+fn apply_setter(c: &mut walrus::ModuleConfig, name: &str, v: bool, count: &Arc<AtomicUsize>) {
+    match name {
+        "names" => {
+            c.generate_name_section(v);
+        }
+        "producers" => {
+            c.generate_producers_section(v);
+        }
+        "dwarf" => {
+            c.generate_dwarf(v);
+        }
+        "preserve_ct" => {
+            c.preserve_code_transform(v);
+        }
+        "stable" => {
+            c.only_stable_features(v);
+        }
+        "synthetic" => {
+            c.generate_synthetic_names_for_anonymous_items(v);
+        }
+        "strict" => {
+            c.strict_validate(v);
+        }
+        _ => {
+            let c2 = count.clone();
+            c.on_parse(move |_, _| {
+                c2.fetch_add(1, Ordering::SeqCst);
+                Ok(())
+            });
+        }
+    }
+}
+
+fn seq_of(c: &Case) -> Vec<(String, bool)> {
+    c.cfg["setters"].as_array().map(|a| a.iter().map(|x| (x[0].as_str().unwrap_or("").to_string(), x[1].as_bool().unwrap_or(false))).collect()).unwrap_or_default()
+}
+
+pub fn check_setters(c: &Case) -> CaseResult {
+    let mut r = CaseResult::default();
+    let seq = seq_of(c);
+    // model
+    let mut st = Cfg::default();
+    let mut cb = false;
+    for (n, v) in &seq {
+        match n.as_str() {
+            "names" => st.names = *v,
+            "producers" => st.producers = *v,
+            "dwarf" => {
+                st.dwarf = *v;
+                st.preserve_ct = st.preserve_ct || *v;
+            }
+            "preserve_ct" => st.preserve_ct = *v,
+            "stable" => st.stable = *v,
+            "synthetic" => st.synthetic = *v,
+            "strict" => {}
+            _ => cb = true,
+        }
+    }
+    // real
+    let count = Arc::new(AtomicUsize::new(0));
+    let mut real = walrus::ModuleConfig::new();
+    for (n, v) in &seq {
+        apply_setter(&mut real, n, *v, &count);
+    }
+    r.valid_input = true;
+    let got = std::panic::catch_unwind(std::panic::AssertUnwindSafe(|| real.parse(&c.wasm).map(|mut m| m.emit_wasm())));
+    let want = roundtrip(&c.wasm, &st, false);
+    r.transitions = 4;
+    let mut bad = |sig: &str, d: String| r.violations.push(Violation::new("C14", sig, d, c));
+    match (got, want) {
+        (Ok(Ok(g)), Ok(w)) => {
+            r.nontrivial = true;
+            r.digests.push(wmodel::fnv(&g));
+            let k = count.load(Ordering::SeqCst);
+            if k != cb as usize {
+                bad(&format!("on-parse-count:{}:on-ok", k.min(2)), format!("after the setter calls {:?} the parse callback ran {} times", seq, k));
+            }
+            if g != w {
+                let names = |b: &[u8]| raw_sections(b).into_iter().filter(|s| s.0 == 0).map(|s| s.1).collect::<Vec<_>>();
+                let (gi, wi) = (names(&g), names(&w));
+                let sig = if gi != wi {
+                    let which = ["name", "producers", ".debug"].iter().find(|n| gi.iter().any(|x| x.starts_with(**n)) != wi.iter().any(|x| x.starts_with(**n))).copied().unwrap_or("other");
+                    format!("setter-sequence-wrong-sections:{}", which)
+                } else {
+                    "setter-sequence-wrong-bytes".to_string()
+                };
+                bad(&sig, format!("the setter calls {:?} should amount to {:?}; custom sections emitted {:?}, expected {:?} ({} vs {} bytes)", seq, st, gi, wi, g.len(), w.len()));
+            }
+        }
+        (Ok(Err(_)), Err(Fail::Rejected(_))) => {
+            if count.load(Ordering::SeqCst) != 0 {
+                bad("on-parse-count:1:on-err", format!("after the setter calls {:?} the parse failed but the callback ran", seq));
+            }
+        }
+        (Ok(Ok(_)), Err(Fail::Rejected(e))) => bad("setter-sequence-accepts", format!("the setter calls {:?} amount to {:?}, under which the input is rejected ({}), yet it was accepted", seq, st, e)),
+        (Ok(Err(e)), Ok(_)) => bad("setter-sequence-rejects", format!("the setter calls {:?} amount to {:?}, under which the input is accepted, yet it was rejected: {:#}", seq, st, e)),
+        _ => {} // panics are C02's
+    }
+    r
+}
+
+pub fn setter_cases(args: &Args) -> Vec<Case> {
+    let depth = if args.tier == Tier::Quick { 3 } else { 4 };
+    let mut alphabet: Vec<(usize, bool)> = vec![];
+    for (i, n) in SETTERS.iter().enumerate() {
+        alphabet.push((i, true));
+        if *n != "on_parse" {
+            alphabet.push((i, false));
+        }
+    }
+    // two inputs: everything present and single-memory (valid under only_stable), and a two-memory
+    // module so that `stable` decides acceptance
+    let inputs = [("all", build_input(true, 1, true)), ("two-memories", {
+        let mut m = names_base(0);
+        m.customs.push((12, "producers".into(), mb::producers(producers_variants()[1].1.as_ref().unwrap())));
+        m.build()
+    })];
+    let mut cases = vec![];
+    let mut seqs: Vec<Vec<(usize, bool)>> = vec![vec![]];
+    let mut frontier = seqs.clone();
+    for _ in 0..depth {
+        let mut next = vec![];
+        for s in &frontier {
+            for a in &alphabet {
+                let mut t = s.clone();
+                t.push(*a);
+                next.push(t);
+            }
+        }
+        seqs.extend(next.iter().cloned());
+        frontier = next;
+    }
+    for (iname, wasm) in inputs.iter() {
+        for s in &seqs {
+            let j: Vec<serde_json::Value> = s.iter().map(|(i, v)| json!([SETTERS[*i], v])).collect();
+            cases.push(Case { family: "setters".into(), coords: format!("{} {:?}", iname, s.iter().map(|(i, v)| format!("{}={}", SETTERS[*i], v)).collect::<Vec<_>>()), wasm: wasm.clone(), cfg: json!({"setters": j}) });
+        }
+    }
+    cases
+}
+
 fn recheck(c: &Case, version: &str) -> Vec<Violation> {
+    if c.cfg.get("setters").is_some() {
+        return check_setters(c).violations;
+    }
     if c.cfg.get("callback").is_some() {
         let count = Arc::new(AtomicUsize::new(0));
         let c2 = count.clone();
@@ -305,11 +456,16 @@ pub fn run(args: &Args) -> i32 {
     }
     ev.rule = "all 2^6 combinations of {name section, producers, DWARF, code-transform preservation, only-stable, synthetic names} x inputs {with/without name section} x \
         {5 producers variants} x {with/without DWARF} x {1,2,3} round trips; section inventory + producers content + 'flipping one switch changes only its own section' (byte comparison of raw sections); \
+        plus the configuration builder as a state machine: every sequence of setter calls (8 setters, 15 actions) up to length 3 (quick) / 4 (thorough) on two inputs, model = last write wins \
+        (generate_dwarf(true) implies code-transform preservation), oracle = output byte-identical to the output under the canonical configuration of the model state, same accept/reject, callback count; \
         plus the parse callback counted on every prefix and 7 substitutions per byte of two seeds. non-trivial = every accepted case (each is a distinct configuration/input pair)"
         .into();
     ev.bounds = json!({"switch_combinations": 64, "inputs": 20, "round_trips": 3});
     ev.assumptions = vec![format!("walrus's version string is read from /repo/Cargo.toml ({})", version)];
     let mut viol = run_sweep(args, &mut ev, &cases, &|c| check_case(c, &version));
+    let sc = setter_cases(args);
+    ev.extra.insert("setter_sequences".into(), json!({"alphabet": 15, "max_length": if args.tier == Tier::Quick { 3 } else { 4 }, "sequences_x_inputs": sc.len()}));
+    viol.extend(run_sweep(args, &mut ev, &sc, &check_setters));
     let (n, v) = callback_cases(&mut ev);
     ev.evaluations += n;
     ev.transitions += n;
